@@ -392,7 +392,15 @@ pub fn decode_fixlen_items<P, D: ParameterizedDecode<P>>(
     let mut sub = Cursor::new(&bytes.get_ref()[initial_position..items_end]);
 
     while sub.position() < length as u64 {
+        let position_before = sub.position();
         decoded.push(D::decode_with_param(decoding_parameter, &mut sub)?);
+        if sub.position() == position_before {
+            // An item that consumes no input can never fill a non-empty vector body; refuse it
+            // rather than looping forever.
+            return Err(CodecError::Other(
+                "vector item decoded from zero bytes".into(),
+            ));
+        }
     }
 
     // Advance outer cursor by the amount read in the inner cursor
